@@ -1165,3 +1165,10 @@ def extra_evidence(check):
         "before_sibling_variant_modelled": "detachFirst (H5V.Model.Dom.beforeSiblingVariant) = /repo 394a5e0; the oracle demands insertion immediately before the sibling",
         "repaired_by": ["ebdbd68", "394a5e0"],
     }
+
+
+def rel_equiv(line, dev, rel):
+    """RcDom states part of the TreeSink contract as `debug_assert!`: an operation sequence that breaks the contract
+    panics there in the dev build only (reported as `!PANIC:debug-assert`, which the model predicts); from that point
+    on the two builds legitimately differ"""
+    return dev is not None and "PANIC:debug-assert" in dev
